@@ -693,7 +693,29 @@ func c13QueueHistory(r *ev.Run, g *rng.R, caseID string, small bool) {
 	verdict, stacks := gor.WaitParked(done, "main.c13worker", 5*time.Second, time.Second)
 	r.Eval(1)
 	if verdict == gor.Parked {
-		r.Violate("C13/blocked-after-cancel/queue", caseID, "a queue call whose context was cancelled is parked inside the library", map[string]any{"stacks": stacks})
+		// Purge takes no context: a Purge that saw a message which a receiver then took waits for the next message. That is not
+		// a cancelled call and not C13's subject. Such producers are released with filler messages and the case is not judged.
+		onlyPurge := true
+		for _, blk := range strings.Split(stacks, "\n\n") {
+			if strings.TrimSpace(blk) != "" && !strings.Contains(blk, ".Purge(") {
+				onlyPurge = false
+			}
+		}
+		if !onlyPurge {
+			r.Violate("C13/blocked-after-cancel/queue", caseID, "a queue call whose context was cancelled is parked inside the library", map[string]any{"stacks": stacks})
+			return
+		}
+		r.Count("queue_purge_waiting_for_a_message_a_receiver_took", 1)
+		for i := 0; i < 10000; i++ {
+			select {
+			case <-done:
+				i = 10000
+			default:
+				q.Deliver(p2p.Message[memAddr]{Src: memAddr{N: 0}, Dst: memAddr{N: 7}, Payload: []byte("filler")})
+				time.Sleep(200 * time.Microsecond)
+			}
+		}
+		r.Inconclusive("c13 queue: a producer's Purge lost a race with the receivers " + caseID)
 		return
 	} else if verdict == gor.Slow {
 		r.Inconclusive("c13 queue workers slow " + caseID)
